@@ -677,7 +677,7 @@ Proof.
   replace (4 <? zlen a + (4 - zlen a mod 4) - zlen a) with false by (symmetry; apply Z.ltb_ge; lia).
   replace ((zlen a + (4 - zlen a mod 4)) mod 4 =? 0) with true by (symmetry; apply Z.eqb_eq; lia).
   cbn [negb].
-  assert (NB : not_bundle_addr a) by (unfold not_bundle_addr, a; cbn; lia).
+  assert (NB : not_bundle_addr a) by (unfold not_bundle_addr, bundle7, a; discriminate).
   pose proof (message_length_enc a tags args [] n WF NB Hsz ltac:(unfold n, m; lia)) as HML.
   rewrite app_nil_r in HML. fold m in HML. rewrite HML. cbn [bind]. fold n.
   rewrite Z.eqb_refl. reflexivity.
